@@ -190,7 +190,7 @@ def observe(cfg, want):
             if name == "upwind":
                 terms.append(P.convectionTVDupwindRHSTerm(c.u, v, FL))
             P.solvePDE(v, terms)
-            steady[name] = lift.lift_array(np.asarray(v.value), tol=1e-9, qmax=20000)[0]
+            steady[name] = lift.lift_array(np.asarray(v.value), tol=1e-9, qmax=40)[0]
         obs["steady"] = steady
         # C01: closed system (no-flux walls with zero normal velocity / periodic): domainIntegral is invariant
         if cfg.get("closed_system"):
@@ -209,7 +209,7 @@ def observe(cfg, want):
                         conv = P.convectionTerm(c.u) if name == "implicit_central" else P.convectionUpwindTerm(c.u)
                         P.solvePDE(v, [P.transientTerm(v, 0.5, 1.0), -P.diffusionTerm(c.D), conv])
                     seq.append(v.domainIntegral())
-                integ[name] = [lift.lift_enc(x / math.pi ** e, tol=1e-10) for x in seq]
+                integ[name] = [lift.lift_enc(x / math.pi ** e, tol=1e-11, qmax=400) for x in seq]
             obs["integrals"] = integ
             obs["periodic_any"] = periodic_any
     obs["steps"] = steps
